@@ -425,6 +425,77 @@ def oracle_chain(ctx, rng, n):
                 break
 
 
+def oracle_input_orifice(ctx, rng, n):
+    """the flows that are actually USED: the real Orificing._setup_input_orifice turns the distributed flows into the input of the
+    orificed sweep.  Cores with assemblies that are not grouped (control assemblies in the centre or inside a fuel ring, i.e. at
+    LOWER position numbers than grouped ones) and empty positions: every grouped assembly gets the flow distributed to it, members
+    of a group the same flow, the flows written sum to the distributed total, every assembly that is not grouped gets a flow rate
+    from its own power, and no assigned position keeps the outlet-temperature boundary condition of the 'perfect orificing' input"""
+    import copy
+    import dassh
+    from dassh.orificing import Orificing
+    from harness import dasshutil as du
+    for ci in range(n):
+        npos = rng.choice([7, 7, 19])
+        kinds = []
+        for k in range(npos):
+            u = rng.random()
+            kinds.append('empty' if u < 0.15 else ('ungrouped' if u < 0.4 or (k == 0 and ci % 2 == 0) else 'grouped'))
+        if 'grouped' not in kinds:
+            kinds[-1] = 'grouped'
+        gids = [k for k, kd in enumerate(kinds) if kd == 'grouped']
+        ngr = rng.randint(1, min(4, len(gids)))
+        labels = sorted(rng.randrange(ngr) for _ in gids)
+        flows_g = [round(rng.uniform(1.0, 30.0), 4) for _ in range(ngr)]
+        m_asm = np.array([flows_g[g] for g in labels])
+        o = Orificing.__new__(Orificing)
+        o.group_data = np.array([[gid, rng.uniform(1e5, 5e6), lab] for gid, lab in zip(gids, labels)], dtype=float)
+        ung = [k for k, kd in enumerate(kinds) if kd == 'ungrouped']
+        if ung:
+            o._ng_power = np.array([[k, rng.uniform(1e4, 1e6)] for k in ung], dtype=float)
+        o.orifice_input = {'bulk_coolant_temp': 773.15}
+
+        class Inp:
+            pass
+        perfect = Inp()
+        perfect.materials = {'sodium': du.const_material('sodium', cp=1270.0)}
+        perfect.data = {'Core': {'coolant_material': 'sodium', 'coolant_inlet_temp': 623.15},
+                        'Assignment': {'ByPosition': [[] if kd == 'empty' else ['t_' + kd, (0, k), {'outlet_temp': 773.15}]
+                                                      for k, kd in enumerate(kinds)]}}
+        o._setup_input_perfect = lambda: copy.deepcopy(perfect)
+        ctx.evals += 1
+        try:
+            inp = o._setup_input_orifice(m_asm)
+        except Exception as ex:
+            ctx.violation("c20-input-orifice:%s" % type(ex).__name__, "Orificing._setup_input_orifice fails: %r" % ex, kinds=kinds)
+            continue
+        byp = inp.data['Assignment']['ByPosition']
+        why = None
+        used = {}
+        for i, gid in enumerate(gids):
+            bc = byp[gid][2] if byp[gid] else None
+            if not bc or 'flowrate' not in bc or abs(float(bc['flowrate']) - m_asm[i]) > 1e-12 * m_asm[i]:
+                why = "grouped assembly at position %d (group %d) is given %r, the distribution gave it %.6g kg/s" % (gid, labels[i], bc, m_asm[i])
+                break
+            used.setdefault(labels[i], set()).add(float(bc['flowrate']))
+        if why is None and any(len(v) > 1 for v in used.values()):
+            why = "members of one group run with different flow rates: %s" % {k: sorted(v) for k, v in used.items() if len(v) > 1}
+        if why is None:
+            for k in ung:
+                bc = byp[k][2]
+                if 'flowrate' not in bc or not np.isfinite(float(bc['flowrate'])) or float(bc['flowrate']) <= 0:
+                    why = "assembly at position %d is not grouped and is given %r instead of a flow rate from its own power" % (k, bc)
+                    break
+        if why is None:
+            for k, kd in enumerate(kinds):
+                if kd == 'empty' and byp[k]:
+                    why = "empty position %d received an assignment" % k
+        ctx.count("input_orifice_cases" + (":ungrouped-before-grouped" if ung and gids and min(ung) < max(gids) else ""))
+        if why:
+            ctx.violation("c20-input-orifice-flows", "the input of the orificed sweep does not carry the distributed flows: %s (positions: %s)"
+                          % (why, kinds), kinds=kinds, labels=labels, flows=list(map(float, m_asm)))
+
+
 def run(ctx):
     rng = random.Random(20000 + ctx.seed)
     ctx.rule = ("generated power lists (ties, widely spread, clustered, uniform, all equal), 1-6 groups, several cut-offs; "
@@ -434,6 +505,7 @@ def run(ctx):
     del CLAMP_REQ[:]
     oracle_distribute(ctx, rng, 200 if ctx.thorough else 50)
     oracle_chain(ctx, rng, 80 if ctx.thorough else 24)
+    oracle_input_orifice(ctx, rng, 300 if ctx.thorough else 60)
     if CLAMP_REQ and modelio.build_driver(ctx):
         bad = 0
         for rep, (req, real, info) in zip(modelio.ask([r[0] for r in CLAMP_REQ]), CLAMP_REQ):
